@@ -129,6 +129,12 @@ func staticSlotsOf(ty int) []string {
 
 func hasStaticSlots(ty int) bool { return len(staticSlotsOf(ty)) > 0 }
 
+// tagOptional reads the `required` argument off the tag TEXT (independently of the library's tag parser): the point is optional
+// when the argument holds the value "false" — `required=false`, or with blanks between the values: `required= false`
+func tagOptional(tag string) bool {
+	return strings.Contains(tag, ",required=false") || strings.Contains(tag, ",required= false")
+}
+
 const (
 	wireScannerName = "github.com/go-kid/ioc/container/processors/dependencyAwarePostProcessors"
 	funcScannerName = "github.com/go-kid/ioc/container/processors/dependencyFunctionAwarePostProcessors"
@@ -1267,7 +1273,7 @@ func (r *gRun) oracles() []string {
 	}
 	// an optional point that cannot be satisfied is left UNTOUCHED: what the user put there before the start is still there
 	for _, k := range r.wiped {
-		if info, ok := r.slotInfo[k]; ok && strings.Contains(info[2], ",required=false") {
+		if info, ok := r.slotInfo[k]; ok && tagOptional(info[2]) {
 			add("c07-optional-wiped", "the optional point %s held a user-supplied value before the start and was reset to nothing", k)
 			add("c09-optional-wiped", "the optional point %s held a user-supplied value before the start and was reset to nothing", k)
 		}
@@ -1507,7 +1513,7 @@ func (r *gRun) oracles() []string {
 			info := r.slotInfo[k]
 			hi, _ := strconv.Atoi(holder)
 			holderCreated := hi >= len(r.sc.nodes) || r.created[r.rows[hi].name]
-			if len(objs) == 0 && info[2] != "" && !strings.Contains(info[2], "required=false") && holderCreated {
+			if len(objs) == 0 && info[2] != "" && !tagOptional(info[2]) && holderCreated {
 				if unwired[hi] {
 					add("d8-unwired-pp", "required point %s of a priority-ordered user post-processor stayed empty (created before the dependency processors)", k)
 				} else if info[0] != "o" {
@@ -1530,7 +1536,7 @@ func (r *gRun) oracles() []string {
 					add("c05-init-before-populate", "point %s was still empty when Init of its holder ran, but is set after the start", key)
 				}
 				info := r.slotInfo[key]
-				if !was && len(r.fields[key]) == 0 && info[0] != "o" && !strings.Contains(info[2], "required=false") {
+				if !was && len(r.fields[key]) == 0 && info[0] != "o" && !tagOptional(info[2]) {
 					add("c05-unset-at-init", "required point %s was empty when Init of its holder ran (and still is)", key)
 				}
 			}
@@ -1590,7 +1596,7 @@ func (r *gRun) allOptional() bool {
 		}
 		for _, tag := range n.slots {
 			points++
-			if !strings.Contains(tag, ",required=false") {
+			if !tagOptional(tag) {
 				return false
 			}
 		}
